@@ -346,8 +346,8 @@ pub fn encoding_collisions(opts: &Opts, out: &mut Out, prop: &str) {
             Err(_) => out.oracle(&format!("{}:valid-witness-proved", prop), false, &key, "the prover refused a valid (statement, witness) pair"),
             Ok(proof) => {
                 for a_ in fmrun::ACTIONS {
-                    let r = fmrun::verify_one(&inst, &stmt, &proof, a_);
-                    out.oracle(&format!("{}:honest-proof-accepted", prop), r.is_ok(), &format!("{} aggregated action={:?}", key, a_), "an honest aggregated proof over two commitments with partly equal encodings was rejected");
+                    let r = std::panic::catch_unwind(std::panic::AssertUnwindSafe(|| fmrun::verify_one(&inst, &stmt, &proof, a_).is_ok()));
+                    out.oracle(&format!("{}:honest-proof-accepted", prop), r.unwrap_or(false), &format!("{} aggregated action={:?}", key, a_), "an honest aggregated proof over two commitments with partly equal encodings was rejected (or verification panicked)");
                 }
             },
         }
@@ -369,8 +369,8 @@ pub fn encoding_collisions(opts: &Opts, out: &mut Out, prop: &str) {
                     let mut ts: Vec<_> = order.iter().map(|i| singles[*i].transcript()).collect();
                     let ss: Vec<_> = order.iter().map(|i| singles[*i].statement()).collect();
                     let ps: Vec<_> = order.iter().map(|i| proofs[*i].clone().unwrap()).collect();
-                    let r = fmrun::Proof::verify_batch(&mut ts, &ss, &ps, a_);
-                    out.oracle(&format!("{}:honest-proof-accepted", prop), r.is_ok(), &format!("{} two members order {:?} action={:?}", key, order, a_), "a batch of two honest proofs over commitments with partly equal encodings was rejected");
+                    let r = std::panic::catch_unwind(std::panic::AssertUnwindSafe(|| fmrun::Proof::verify_batch(&mut ts, &ss, &ps, a_).is_ok()));
+                    out.oracle(&format!("{}:honest-proof-accepted", prop), r.unwrap_or(false), &format!("{} two members order {:?} action={:?}", key, order, a_), "a batch of two honest proofs over commitments with partly equal encodings was rejected (or verification panicked)");
                 }
             }
         }
